@@ -64,6 +64,41 @@ func (r *runLog) f(ctx context.Context) {
 }
 
 // stopRace: kinds of registrations racing with StopAndWait (and optionally the parent's cancel).
+// twoStoppers: two threads call StopAndWait at the same time while a Do function is running (for
+// dur): neither call returns before the function has finished.
+func twoStoppers(dur time.Duration, mode int) Scenario {
+	return Scenario{Name: fmt.Sprintf("stop/two-concurrent-StopAndWait/dur=%v/timerMode=%d", dur, mode), TimerMode: mode, Body: func() {
+		g := xsync.NewGroup(context.Background())
+		seq := 0
+		stopped := false
+		l := &runLog{name: "Do#0", seq: &seq, stopped: &stopped, dur: dur}
+		started := make(chan struct{})
+		l.inside = func() {}
+		g.Do(func(ctx context.Context) {
+			close(started)
+			l.f(ctx)
+		})
+		<-started
+		done := make(chan struct{}, 2)
+		for i := 0; i < 2; i++ {
+			go func() {
+				g.StopAndWait()
+				hx.Atomically(func() {
+					if l.active != 0 || len(l.ends) == 0 {
+						hx.Fail("running-after-StopAndWait", "a StopAndWait call returned while the function started through Do was still running")
+					}
+				})
+				done <- struct{}{}
+			}()
+		}
+		<-done
+		<-done
+		hx.Atomically(func() { stopped = true })
+		hx.Quiesce()
+		hx.Outcome("ok")
+	}}
+}
+
 func stopRace(kinds []string, parentCancel bool, mode int) Scenario {
 	return stopRaceX(kinds, parentCancel, false, mode)
 }
@@ -296,6 +331,7 @@ func All() []Scenario {
 		stopRace([]string{"Do", "Trigger"}, true, 0),
 		stopRace([]string{"Periodic"}, true, 1),
 		stopRace([]string{"PeriodicOrTrigger"}, false, 1),
+		twoStoppers(0, 0), twoStoppers(2*ms, 1),
 		stopRace([]string{"DoNested"}, false, 0),
 		stopRace([]string{"TriggerSelf"}, false, 0),
 		stopRaceX([]string{"Do"}, false, true, 0),
